@@ -1153,6 +1153,32 @@ func ruleD12(c *Ctx) {
 				n++
 				at := fmt.Sprintf("%s/entry.%s#%d", f.Name, se.Sel.Name, n)
 				pos := p.Position(as.Pos())
+				// a store into an entry that this function made and has not linked yet: still private
+				if id, isId := ast.Unparen(se.X).(*ast.Ident); isId {
+					if v, isVar := info.Uses[id].(*types.Var); isVar && !v.IsField() {
+						if rhs := singleDef(f, v); rhs != nil {
+							if u, isU := ast.Unparen(rhs).(*ast.UnaryExpr); isU && u.Op == token.AND {
+								if _, isLit := ast.Unparen(u.X).(*ast.CompositeLit); isLit {
+									linkedBefore := false
+									walkNoLit(f.Body, func(y ast.Node) bool {
+										if as2, ok := y.(*ast.AssignStmt); ok && as2.Pos() < as.Pos() {
+											for _, r := range as2.Rhs {
+												if rid, ok := ast.Unparen(r).(*ast.Ident); ok && info.Uses[rid] == types.Object(v) {
+													linkedBefore = true
+												}
+											}
+										}
+										return true
+									})
+									if !linkedBefore {
+										R.OK("D12", at, pos, exprStr(l)+" on an entry made here and not yet linked")
+										continue
+									}
+								}
+							}
+						}
+					}
+				}
 				if se.Sel.Name != "link" {
 					R.Fail("D12", at, pos, fmt.Sprintf("%s assigns %s after the entry was made: an entry that an iterator may still be standing on changes its value", f.Name, exprStr(l)))
 					continue
